@@ -90,6 +90,16 @@ CLAIMED["C02"] = ("other", "Mixed: (proof) the combinator layer - flatten_items,
                   "exercised by the run-time sweep of the same contract on real markers over the well-defined atom pool and an environment grid.",
                   "5 C02", "assumed (bounded) contracts listed in the evidence; law.C13; A-HASHSEED; recorded finding D14",
                   "contract-based deductive verification of the combinator layer (T-MARK, invariants, z3) + bounded stand-in for the atom layer")
+CLAIMED["C11"] = ("other", "Mixed: (proof, structured versions) MarkerExpression.from_specifier on python_version / python_full_version: for every single range with release-only bounds, every parsed ==P.* range and every parsed "
+                  "!=P.* / !=V union the result is None or an atom whose (operator, value) clause denotes exactly the given specifier - the zero padding to X.Y.Z keeps the version, and never touches a ~= or wildcard operand - and the atom "
+                  "carries that very specifier as its view; (bounded) both directions on real objects: specifier view vs evaluate() for every listed atom shape (comparison, ~=, wildcard, in / not in) over the interpreter grid X.Y.Z, "
+                  "from_specifier of simple specifiers re-evaluated on the grid.", "5 C11", "A-VER, A-PKG-PARSE; _get_specifier/_evaluate (string code) bounded only; bounds with pre/post/dev segments bounded only; finding D14",
+                  "contract-based deductive verification of from_specifier (T-VER, z3 with deterministic instantiation) + bounded bridge sweep")
+CLAIMED["C03"] = ("other", "Mixed: (proof) _build_markers, the rewriting done while parsing: the marker built from packaging's parse tree evaluates as packaging's own fold of that tree (or of and-groups, nested lists recursively) "
+                  "for all trees, given atoms that evaluate alike, and every parsed triple becomes an atom with the same variable, literal and operand order, its operator mirrored exactly when the literal is on the left; "
+                  "(bounded) parse_marker(text).evaluate(env) against packaging.Marker(text).evaluate(env) for every text over the well-defined atom pool (both operand orders, nested and/or) on the environment grid, "
+                  "name-normalisation spellings and set-valued extras / dependency_groups included.", "5 C03", "A-PKG-EVAL (transcription of packaging's fold); atom-level agreement with packaging's _eval_op bounded only; finding D14",
+                  "contract-based deductive verification of the parse-tree fold (T-MARK, loop invariant, z3) + bounded comparison with packaging")
 NA_REASON = "check not built yet in this session (work in progress; see DESIGN.md section 5)"
 ALL = ["C%02d" % i for i in range(1, 20)]
 m = {"version": 1, "setup_cmd": "python3-vt check.py --setup",
